@@ -89,7 +89,7 @@ def plan(tier: str, seed: int) -> list[dict]:
         specs.append({"name": f"toy-{i}", "fn": "shard_toy", "primes": ps, "nmax": 61 if q else 127,
                       "_budget_s": B, "_timeout_s": T})
     groups = 6 if q else 11
-    order = sorted(CURVE_NAMES, key=lambda c: -int("".join(ch for ch in c[4:] if ch.isdigit())[:3]))
+    order = sorted((c for c in CURVE_NAMES if c != "secp256k1"), key=lambda c: -int("".join(ch for ch in c[4:] if ch.isdigit())[:3]))
     for i in range(groups):
         specs.append({"name": f"big-{i}", "fn": "shard_big", "curves": order[i::groups], "_budget_s": B, "_timeout_s": T})
     for arm in ("bindings", "python"):
@@ -98,7 +98,7 @@ def plan(tier: str, seed: int) -> list[dict]:
     specs.append({"name": "selftest", "fn": "shard_selftest", "_budget_s": B, "_timeout_s": T})
     specs.append({"name": "toy-wide", "fn": "shard_toy_wide", "_budget_s": 40 if q else 600, "_timeout_s": T})
     for i in range(1 if q else 8):
-        specs.append({"name": f"der-{i}", "fn": "shard_der", "n": 12000 if q else 125000, "part": i,
+        specs.append({"name": f"der-{i}", "fn": "shard_der", "n": 60000 if q else 125000, "part": i,
                       "_budget_s": 45 if q else 900, "_timeout_s": T})
     specs.append({"name": "wycheproof", "fn": "shard_wycheproof", "_budget_s": B, "_timeout_s": T})
     specs.append({"name": "bms", "fn": "shard_bms", "n": 6 if q else 60, "_budget_s": 45 if q else 900, "_timeout_s": T})
@@ -507,8 +507,11 @@ def _toy_curve(ctx: Ctx, dsa, ec, rc, G, n: int, h: int, main_hash: str) -> None
                         ctx.stat("toy:recover-all-differs-from-sec1-candidate-set")
 
     # --- every (q, e < n, k) under the main hash
+    import time as _time
+
+    cube_deadline = _time.time() + max(4.0, 0.45 * ctx.time_left())
     for q in range(1, n):
-        if ctx.out_of_time():
+        if _time.time() > cube_deadline:
             complete = False
             break
         Q = S[q]
@@ -635,4 +638,878 @@ def _toy_curve(ctx: Ctx, dsa, ec, rc, G, n: int, h: int, main_hash: str) -> None
         ctx.bulk("toy:crack", n_c)
 
 
-# --- MORE ---
+def shard_toy_wide(ctx: Ctx) -> None:
+    """Toy curves whose order is wider than a 1-byte digest (n >= 257): sampled, not exhaustive."""
+    from btclib.curves.curve import Curve
+    from btclib.ecc import dsa
+
+    _selftest_mini(ctx)
+    obs = _Obs(ctx)
+    rng = ctx.rng
+    primes = [263, 269, 311, 383, 509, 521, 761, 1021, 1031, 2039]
+    made = 0
+    while not ctx.out_of_time() and made < (60 if ctx.tier == "quick" else 600):
+        p = rng.choice(primes)
+        a, b = rng.randrange(p), rng.randrange(1, p)
+        c0 = rec.RefCurve(p, a, b)
+        if not c0.discriminant_nonzero():
+            continue
+        pts = c0.all_points()
+        N = len(pts) + 1
+        ns = [q for q in range(257, N + 1) if N % q == 0 and rec.is_prime(q)]
+        if not ns:
+            continue
+        n = ns[-1]
+        h = N // n
+        G = next((P for P in pts if c0.mul_nored(n, P) is None), None)
+        if G is None:
+            continue
+        o = outcome(Curve, p, a, b, G, n, h, False)
+        if o[0] != "ok":
+            ctx.stat("wide:curve-refused-by-constructor")
+            continue
+        ec, rc = o[1], rec.RefCurve(p, a, b, G, n)
+        made += 1
+        desc = {"p": p, "a": a, "b": b, "G": G, "n": n, "h": h}
+        nlen = n.bit_length()
+        for it in range(160 if ctx.tier == "quick" else 600):
+            hname = TOY_HASHES[it % 4]
+            hfx = hf_of(hname)
+            hh = hfx()
+            hh.update(rng.randbytes(8))
+            d = hh.digest()
+            e = recdsa.challenge(d, n)
+            q, k = rng.randrange(1, n), rng.randrange(1, n)
+            Q = rc.mul_nored(q, G)
+            try:
+                r, s, R = recdsa.sign(rc, q, e, k)
+                ref = ("ok", r, s)
+            except recdsa.SignFailure as f:
+                ref = ("fail", f.reason)
+            for low in (False, True):
+                case = {**desc, "hash": hname, "digest": d, "q": q, "k": k, "lower_s": low}
+                o = outcome(dsa.sign_recoverable_, d, q, k, low, ec, hfx)
+                sig = _judge_sign(ctx, o, ref, n, low, case, "sign_recoverable_")
+                if sig is not None:
+                    ctx.mon("recover-vs-signer-key")
+                    o2 = outcome(dsa.recover_pub_key_, o[1][1], d, sig, hfx)
+                    if o2[0] == "raise" or tuple(o2[1]) != Q:
+                        ctx.violation("recover-wrong-key", f"key id {o[1][1]} -> {o2[1]!r}, signer's key {Q}", {**case, "sig": (sig.r, sig.s)})
+                    _judge_verify(ctx, outcome(dsa.verify_, d, Q, sig, hfx), True, n, sig.r, sig.s, case, "verify_ of a produced signature")
+                    rm, sm = rng.choice([(sig.r, (sig.s + 1) % n), ((sig.r + 1) % n, sig.s), (sig.r, n - sig.s), (0, sig.s), (sig.r, n)])
+                    _judge_verify(ctx, outcome(dsa.verify_, d, Q, dsa.Sig(rm, sm, ec, check_validity=False), hfx),
+                                  recdsa.verify(rc, Q, e, rm, sm), n, rm, sm, {**case, "r": rm, "s": sm}, "verify_")
+                ctx.case("wide:sign", (p, a, b, n, hname, d, q, k, low), sample={**desc, "hash": hname, "nlen": nlen})
+            # RFC 6979 with a digest shorter than the order
+            k0 = r69.nonce(q, n, d, hfx)
+            try:
+                r, s, _ = recdsa.sign(rc, q, e, k0)
+                o = outcome(dsa.sign_, d, q, None, False, ec, hfx, grind=False)
+                _judge_sign(ctx, o, ("ok", r, s), n, False, {**desc, "hash": hname, "digest": d, "q": q}, "sign_ with the RFC 6979 nonce")
+            except recdsa.SignFailure:
+                pass
+            if 8 * len(d) < nlen:
+                ctx.bulk("wide:digest-shorter-than-n", 1, 0)
+    ctx.stat("wide:curves", made)
+    obs.finish()
+
+
+# ---------------------------------------------------------- catalogued curves
+def _openssl_curves():
+    try:
+        from cryptography.hazmat.primitives.asymmetric import ec as cec
+    except ImportError:
+        return {}
+    m = {"secp256k1": cec.SECP256K1, "secp192r1": cec.SECP192R1, "secp224r1": cec.SECP224R1,
+         "secp256r1": cec.SECP256R1, "secp384r1": cec.SECP384R1, "secp521r1": cec.SECP521R1,
+         "bpp256r1": cec.BrainpoolP256R1, "bpp384r1": cec.BrainpoolP384R1, "bpp512r1": cec.BrainpoolP512R1}
+    out = {}
+    for k, v in m.items():
+        try:
+            cec.derive_private_key(1, v())
+            out[k] = v
+        except Exception:  # noqa: BLE001 - curve not supported by this OpenSSL build
+            pass
+    return out
+
+
+def _openssl_verify(curve_cls, hname: str, Q, digest: bytes, r: int, s: int):
+    """True/False, or None when OpenSSL cannot be asked (value it cannot encode)."""
+    from cryptography.exceptions import InvalidSignature
+    from cryptography.hazmat.primitives import hashes as ch
+    from cryptography.hazmat.primitives.asymmetric import ec as cec
+    from cryptography.hazmat.primitives.asymmetric import utils as cu
+
+    alg = {"sha1": ch.SHA1, "sha224": ch.SHA224, "sha256": ch.SHA256, "sha384": ch.SHA384, "sha512": ch.SHA512,
+           "sha3_256": ch.SHA3_256}.get(hname)
+    alg = alg() if alg else ch.BLAKE2b(64)
+    if r < 0 or s < 0:
+        return None
+    try:
+        pk = cec.EllipticCurvePublicNumbers(Q[0], Q[1], curve_cls()).public_key()
+        der = cu.encode_dss_signature(r, s)
+    except Exception:  # noqa: BLE001
+        return None
+    try:
+        pk.verify(der, digest, cec.ECDSA(cu.Prehashed(alg)))
+        return True
+    except InvalidSignature:
+        return False
+
+
+_KEY_CLASSES = ["one", "two", "n-1", "n-2", "uniform", "small", "top-bits", "half"]
+_MSG_CLASSES = ["empty", "abc", "short", "long", "zeros"]
+
+
+def _key_of(cls: str, n: int, rng) -> int:
+    return {"one": 1, "two": 2, "n-1": n - 1, "n-2": n - 2, "uniform": rng.randrange(1, n), "small": rng.randrange(3, 1 << 16),
+            "top-bits": n - rng.randrange(1, 1 << 20), "half": n // 2 + rng.randrange(-2, 3)}[cls]
+
+
+def _msg_of(cls: str, rng) -> bytes:
+    return {"empty": b"", "abc": b"abc", "short": rng.randbytes(rng.randrange(1, 64)), "long": rng.randbytes(rng.randrange(200, 1500)),
+            "zeros": bytes(rng.randrange(1, 40))}[cls]
+
+
+def shard_big(ctx: Ctx) -> None:
+    from btclib.curves.curve import CURVES
+    from btclib.ecc import dsa
+
+    _selftest_mini(ctx)
+    obs = _Obs(ctx)
+    ossl = _openssl_curves()
+    armsel = ctx.params.get("arm")
+    state = {"Q": {}, "it": 0}
+    rnd = 0
+    stop = False
+    try:
+        while not stop:
+            for name in ctx.params["curves"]:
+                ec = CURVES[name]
+                rc = rec.RefCurve(ec.p, ec._a, ec._b, tuple(ec.G), ec.n, name)
+                k1 = name == "secp256k1"
+                arms = [armsel] if (k1 and armsel) else (["bindings", "python"] if k1 and backend_available() else [None])
+                for arm in arms:
+                    if k1 and backend_available():
+                        set_backend(arm != "python")
+                    elif k1 and arm == "bindings":
+                        ctx.inconclusive_("bindings arm requested but btclib_secp256k1 is not installed")
+                        continue
+                    for hi, hname in enumerate(HASHES):
+                        if rnd > 0 and ctx.out_of_time():
+                            stop = True
+                            break
+                        _big_case(ctx, dsa, ec, rc, name, hname, arm if k1 else "python", rnd, hi, ossl, state)
+                    if stop:
+                        break
+                if stop:
+                    break
+            rnd += 1
+            if ctx.out_of_time():
+                stop = True
+    finally:
+        if backend_available():
+            set_backend(True)
+    ctx.stat("big:rounds", rnd)
+    obs.finish()
+
+
+def _big_case(ctx: Ctx, dsa, ec, rc, name: str, hname: str, arm: str, rnd: int, hi: int, ossl: dict, state: dict) -> None:
+    rng = ctx.rng
+    n, p = rc.n, rc.p
+    nlen = n.bit_length()
+    hf = hf_of(hname)
+    k1 = name == "secp256k1"
+    it = state["it"]
+    state["it"] += 1
+    kcls = _KEY_CLASSES[(it + rnd) % len(_KEY_CLASSES)]
+    mcls = _MSG_CLASSES[(it // 2 + rnd) % len(_MSG_CLASSES)]
+    q = _key_of(kcls, n, rng)
+    msg = _msg_of(mcls, rng)
+    digest = hf(msg).digest()
+    e = recdsa.challenge(digest, n)
+    Qc = state["Q"]
+
+    def pub(x):
+        if (name, x) not in Qc:
+            Qc[(name, x)] = rc.mul_nored(x, rc.G)
+        return Qc[(name, x)]
+
+    Q = pub(q)
+    python_arm = not (k1 and arm == "bindings" and hname == "sha256")
+    desc = {"curve": name, "hash": hname, "arm": arm, "q": q, "msg": msg, "key-class": kcls, "msg-class": mcls}
+    ctx.case(f"big:hash:{hname}", (name, hname, arm, q, msg), sample={**desc, "digest": digest})
+    ctx.classes[f"big:key:{kcls}"] += 1
+    if 8 * len(digest) > nlen:
+        ctx.classes["big:digest-longer-than-n"] += 1
+    elif 8 * len(digest) < nlen:
+        ctx.classes["big:digest-shorter-than-n"] += 1
+
+    # ---- the reference's RFC 6979 attempts, Core's counter convention for low R
+    atts = []
+    counter = 0
+    while True:
+        k = r69.nonce(q, n, digest, hf, r69.core_grind_extra(counter))
+        r, s, R = recdsa.sign(rc, q, e, k)
+        atts.append((k, r, s, R))
+        if r69.is_low_r(r, n) or counter > 64:
+            break
+        counter += 1
+    plain, ground = atts[0], atts[-1]
+    if len(atts) > 1:
+        ctx.classes["big:grind:counter>=1"] += 1
+        if python_arm:
+            ctx.classes["big:grind:counter>=1:python-arm"] += 1
+    if plain[2] > n // 2:
+        ctx.classes["big:low-s-flip"] += 1
+    if plain[3][0] >= n:
+        ctx.classes["big:x_K>=n:signed"] += 1
+    if not recdsa.verify(rc, Q, e, plain[1], plain[2]):
+        ctx.oracle_broken("ref.ecdsa sign/verify disagree", name)
+        return
+
+    def der_of(r, s):
+        b = rder.encode(r, s)
+        return b if len(b) - 2 < 0x80 else None  # beyond that the library's length octets are not DER's: recorded only
+
+    # ---- default nonce: grind x lower_s through sign, one combination through sign_, Signer
+    for gi, (grind, low) in enumerate(((False, False), (False, True), (True, False), (True, True))):
+        _, r, s, _ = ground if grind else plain
+        case = {**desc, "grind": grind, "lower_s": low}
+        o = outcome(dsa.sign, msg, q, None, low, ec, hf, grind=grind)
+        sig = _judge_sign(ctx, o, ("ok", r, s), n, low, case, "sign")
+        ctx.classes["big:sign:grind" if grind else "big:sign:rfc6979"] += 1
+        if gi == (it % 4):
+            o = outcome(dsa.sign_, digest, q, None, low, ec, hf, grind=grind)
+            _judge_sign(ctx, o, ("ok", r, s), n, low, case, "sign_")
+            o = outcome(dsa.sign, msg, q, None, low, ec, hf, grind=grind)
+            sig2 = _judge_sign(ctx, o, ("ok", r, s), n, low, case, "sign (second call)")
+            if sig is not None and sig2 is not None and sig.serialize() != sig2.serialize():
+                ctx.violation("sign-not-reproducible", "two calls, two encodings", case)
+            if sig is not None:
+                want = der_of(r, n - s if (low and s > n // 2) else s)
+                got = outcome(sig.serialize)
+                if want is None:
+                    ctx.stat("der:serialize-needs-long-form-length(not judged)")
+                elif got[0] == "raise" or got[1] != want:
+                    ctx.violation("serialize-differs-from-der", f"Sig.serialize() = {got[1]!r}, DER is {want.hex()}", case)
+        if low:
+            # Signer always signs low-s
+            o = outcome(lambda: dsa.Signer(q, ec, hf).sign(msg, grind=grind))
+            want = der_of(r, min(s, n - s))
+            ctx.classes["big:signer"] += 1
+            if o[0] == "raise":
+                ctx.violation(f"signer-refused:{_exc_tag(o[1])}", f"Signer.sign raised {o[1]!r}", case)
+            elif want is None:
+                ctx.stat("der:serialize-needs-long-form-length(not judged)")
+            elif o[1] != want:
+                ctx.violation("signer-differs-from-reference", f"Signer.sign = {o[1].hex()}, reference {want.hex()}", case)
+            if it % 3 == 0:
+                o = outcome(lambda: dsa.Signer(q, ec, hf).sign_(digest, grind=grind, verify=False))
+                if want is not None and (o[0] == "raise" or o[1] != want):
+                    ctx.violation("signer-differs-from-reference", f"Signer.sign_ = {o[1]!r}, reference {want.hex()}", case)
+
+    # ---- recoverable signing, key recovery
+    for low in (False, True):
+        _, r, s, R = plain
+        case = {**desc, "lower_s": low}
+        o = outcome(dsa.sign_recoverable, msg, q, None, low, ec, hf)
+        sig = _judge_sign(ctx, o, ("ok", r, s), n, low, case, "sign_recoverable")
+        ctx.classes["big:sign:recoverable"] += 1
+        if sig is None:
+            continue
+        key_id = o[1][1]
+        ctx.mon("recover-vs-signer-key")
+        o2 = outcome(dsa.recover_pub_key, key_id, msg, sig, hf)
+        ctx.classes["big:recover"] += 1
+        if o2[0] == "raise":
+            ctx.violation(f"recover-refused-own-key-id:{_exc_tag(o2[1])}", f"recover_pub_key({key_id}) raised {o2[1]!r}", {**case, "key_id": key_id})
+        elif tuple(o2[1]) != Q:
+            flipped = low and s > n // 2
+            ctx.violation("recover-wrong-key:after-low-s-flip" if flipped else "recover-wrong-key:x_K>=n" if R[0] >= n else "recover-wrong-key",
+                          f"key id {key_id} recovers {o2[1]!r}, signer's key is {Q}", {**case, "key_id": key_id, "sig": (sig.r, sig.s)})
+        if low == bool(it & 1):
+            o3 = outcome(dsa.recover_pub_keys_, digest, sig, hf)
+            ctx.classes["big:recover-all"] += 1
+            if o3[0] == "raise" or Q not in [tuple(P) for P in o3[1]]:
+                ctx.violation("recover-all-misses-signer-key", f"recover_pub_keys_ -> {o3[1]!r}", {**case, "sig": (sig.r, sig.s)})
+
+    # ---- imposed nonce
+    kcl = ["one", "two", "n-1", "uniform", "uniform"][it % 5]
+    k = _key_of(kcl, n, rng)
+    r, s, R = recdsa.sign(rc, q, e, k)
+    low = bool((it >> 1) & 1)
+    case = {**desc, "k": k, "lower_s": low}
+    o = outcome(dsa.sign_, digest, q, k, low, ec, hf, grind=False)
+    _judge_sign(ctx, o, ("ok", r, s), n, low, case, "sign_ with an imposed nonce")
+    ctx.classes["big:sign:imposed-nonce"] += 1
+    o = outcome(dsa.sign_recoverable_, digest, q, k, low, ec, hf)
+    sigk = _judge_sign(ctx, o, ("ok", r, s), n, low, case, "sign_recoverable_ with an imposed nonce")
+    if sigk is not None:
+        ctx.mon("recover-vs-signer-key")
+        o2 = outcome(dsa.recover_pub_key_, o[1][1], digest, sigk, hf)
+        if o2[0] == "raise" or tuple(o2[1]) != Q:
+            ctx.violation("recover-wrong-key:x_K>=n" if R[0] >= n else "recover-wrong-key",
+                          f"key id {o[1][1]} -> {o2[1]!r}, signer's key {Q}", {**case, "sig": (sigk.r, sigk.s)})
+    if R[0] >= n:
+        ctx.classes["big:x_K>=n:signed"] += 1
+    # grinding and an imposed nonce exclude each other: a refusal, not a guess
+    o = outcome(dsa.sign_, digest, q, k, low, ec, hf)
+    if o[0] == "ok":
+        ctx.stat("big:grind-with-imposed-nonce-answered")
+
+    # ---- nonce reuse
+    msg2 = msg + b"\x01"
+    d2 = hf(msg2).digest()
+    r2, s2, _ = recdsa.sign(rc, q, recdsa.challenge(d2, n), k)
+    if s2 != s:
+        o = outcome(dsa.crack_prv_key_var, msg, dsa.Sig(r, s, ec), msg2, dsa.Sig(r2, s2, ec), hf)
+        ctx.classes["big:crack"] += 1
+        if o[0] == "raise" or tuple(o[1]) != (q, k):
+            ctx.violation("crack-wrong-key-or-nonce", f"crack_prv_key_var -> {o[1]!r}", {**desc, "k": k})
+
+    # ---- verification: the valid signature and its mutants, answered as the reference answers
+    _, r, s, _ = plain
+    full = (hi == rnd % len(HASHES)) or (k1 and rnd % 2 == 0)
+    q2 = q + 1 if q + 1 < n else q - 1
+    muts = [("valid", Q, msg, r, s), ("n-s", Q, msg, r, n - s), ("s+1", Q, msg, r, s + 1), ("other-message", Q, msg + b"x", r, s)]
+    if full:
+        muts += [("r+1", Q, msg, r + 1, s), ("r-1", Q, msg, r - 1, s), ("s-1", Q, msg, r, s - 1), ("r+n", Q, msg, r + n, s),
+                 ("r=0", Q, msg, 0, s), ("s=0", Q, msg, r, 0), ("r=n", Q, msg, n, s), ("s=n", Q, msg, r, n),
+                 ("other-key", pub(q2), msg, r, s), ("-Q", rc.neg(Q), msg, r, s),
+                 ("negative", Q, msg, -r, s), ("negative", Q, msg, r, -s), ("negative", Q, msg, r, s - n)]
+    for tag, Qm, mm, rm, sm in muts:
+        dm = digest if mm is msg else hf(mm).digest()
+        em = recdsa.challenge(dm, n)
+        exp = recdsa.verify(rc, Qm, em, rm, sm)
+        case = {**desc, "mutant": tag, "Q": Qm, "r": rm, "s": sm, "digest": dm}
+        sigm = dsa.Sig(rm, sm, ec, check_validity=False)
+        key = Qm
+        if k1:
+            key = [Qm, rbms.sec(Qm, True), rbms.sec(Qm, False), rbms.sec(Qm, True).hex()][(it + len(tag)) % 4]
+        o = outcome(dsa.verify_, dm, key, sigm, hf)
+        _judge_verify(ctx, o, exp, n, rm, sm, case, f"verify_ [{arm}]")
+        ctx.classes["big:verify:valid" if tag == "valid" else f"big:mutant:{tag}"] += 1
+        if tag in ("valid", "n-s", "other-message", "r=0") or it % 4 == 0:
+            o = outcome(dsa.verify, mm, key, sigm, hf)
+            _judge_verify(ctx, o, exp, n, rm, sm, case, f"verify [{arm}]")
+            o = outcome(dsa.assert_as_valid_, dm, key, sigm, hf)
+            if exp and o[0] == "raise":
+                ctx.violation("assert-as-valid-refuses-valid", f"assert_as_valid_ raised {o[1]!r}", case)
+            elif not exp and o[0] == "ok":
+                ctx.violation("assert-as-valid-accepts-invalid", "assert_as_valid_ returned for an invalid signature", case)
+            elif not exp and not is_lib_exc(o[1]):
+                ctx.violation(f"assert-as-valid-foreign-exception:{_exc_tag(o[1])}", f"assert_as_valid_ raised {o[1]!r}", case)
+        if k1 and 0 < rm < n and 0 < sm < n and tag in ("valid", "n-s", "s+1") and it % 2 == 0:
+            # the DER octets as the signature argument
+            o = outcome(dsa.verify_, dm, key, rder.encode(rm, sm), hf)
+            _judge_verify(ctx, o, exp, n, rm, sm, {**case, "sig-as": "der"}, f"verify_ of DER octets [{arm}]")
+        if name in ossl and tag in ("valid", "n-s", "s+1", "r+1", "other-message", "other-key", "r=0", "s=n"):
+            ov = _openssl_verify(ossl[name], hname, Qm, dm, rm, sm)
+            if ov is not None:
+                ctx.mon("openssl-oracle")
+                if ov != exp:
+                    ctx.oracle_broken("ref.ecdsa.verify vs OpenSSL", f"{name} {hname} {tag}: reference {exp}, OpenSSL {ov}")
+    if k1:
+        ctx.arms[f"python:_assert_as_valid_:secp256k1" if python_arm else "bindings:verify:secp256k1"] += 1
+
+    # ---- a valid signature whose ephemeral x-coordinate is >= n, built by recovery (no nonce is known for it)
+    if p > n + 1 and hi == (rnd + 3) % len(HASHES):
+        for _ in range(40):
+            t = rng.randrange(1, min(n, p - n))
+            Rk = rc.lift_x(n + t, rng.randrange(2))
+            if Rk is None or rc.mul_nored(n, Rk) is not None:
+                continue
+            sx = rng.randrange(1, n)
+            T = rc.add(rc.mul_nored(sx, Rk), rc.neg(rc.mul_nored(e % n, rc.G)))
+            Qx = rc.mul_nored(pow(t, -1, n), T)
+            if Qx is None or not recdsa.verify(rc, Qx, e, t, sx):
+                continue
+            case = {**desc, "Q": Qx, "r": t, "s": sx, "x_K": n + t, "digest": digest}
+            sigx = dsa.Sig(t, sx, ec, check_validity=False)
+            _judge_verify(ctx, outcome(dsa.verify_, digest, Qx, sigx, hf), True, n, t, sx, case, f"verify_ with x_K >= n [{arm}]")
+            key_id = 2 * ((n + t) // n) + (Rk[1] & 1)
+            o = outcome(dsa.recover_pub_key_, key_id, digest, sigx, hf)
+            ctx.mon("recover-vs-signer-key")
+            if o[0] == "raise" or tuple(o[1]) != Qx:
+                ctx.violation("recover-wrong-key:x_K>=n", f"key id {key_id} -> {o[1]!r}, the key is {Qx}", case)
+            o = outcome(dsa.recover_pub_keys_, digest, sigx, hf)
+            if o[0] == "raise" or Qx not in [tuple(P) for P in o[1]]:
+                ctx.violation("recover-all-misses-signer-key", f"recover_pub_keys_ -> {o[1]!r} (x_K >= n)", case)
+            ctx.classes["big:x_K>=n:constructed"] += 1
+            break
+
+
+# ------------------------------------------------------------------------ DER
+def _bip66_rule(x: bytes) -> str:
+    """Name of the first BIP 66 rule a bare DER string breaks (for mechanism tags only; the verdict is rder's)."""
+    sig = bytes(x) + b"\x01"
+    if len(sig) < 9:
+        return "too-short"
+    if len(sig) > 73:
+        return "too-long"
+    if sig[0] != 0x30:
+        return "sequence-tag"
+    if sig[1] != len(sig) - 3:
+        return "sequence-length"
+    lenR = sig[3]
+    if 5 + lenR >= len(sig):
+        return "r-length"
+    lenS = sig[5 + lenR]
+    if lenR + lenS + 7 != len(sig):
+        return "element-lengths"
+    if sig[2] != 0x02:
+        return "r-tag"
+    if lenR == 0:
+        return "r-empty"
+    if sig[4] & 0x80:
+        return "r-negative"
+    if lenR > 1 and sig[4] == 0 and not sig[5] & 0x80:
+        return "r-padding"
+    if sig[lenR + 4] != 0x02:
+        return "s-tag"
+    if lenS == 0:
+        return "s-empty"
+    if sig[lenR + 6] & 0x80:
+        return "s-negative"
+    if lenS > 1 and sig[lenR + 6] == 0 and not sig[lenR + 7] & 0x80:
+        return "s-padding"
+    return "none"
+
+
+def _is_x_coordinate(rc, r: int) -> bool:
+    x = r
+    while x < rc.p:
+        if rc.lift_x(x) is not None:
+            return True
+        x += rc.n
+    return False
+
+
+def _der_eval(ctx: Ctx, Sig, x: bytes, mut: str, seen: dict) -> None:
+    """One byte string through the strict parser, judged against BIP 66."""
+    K1 = rec.SECP256K1
+    n = K1.n
+    ctx.mon("der-strict-vs-bip66")
+    canon = rder.is_canonical(x)
+    o = outcome(Sig.parse, x)
+    on = outcome(Sig.parse, x, check_validity=False)
+    ol = outcome(Sig.parse, x, check_validity=False, strict=False)
+    case = {"der": x, "mutator": mut}
+    for tag, oo in (("strict", o), ("strict,check_validity=False", on)):
+        if oo[0] != "ok":
+            continue
+        sig = oo[1]
+        if not canon:
+            if tag == "strict" or len(x) <= 72:
+                ctx.violation(f"der-strict-accepts-noncanonical:{_bip66_rule(x)}",
+                              f"Sig.parse({tag}) accepted {x.hex()} -> ({sig.r}, {sig.s}); BIP 66 rule broken: {_bip66_rule(x)}", case)
+            else:
+                ctx.stat("der:oversized-accepted-with-check_validity=False(not judged)")
+        elif (sig.r, sig.s) != rder.decode(x):
+            ctx.violation("der-strict-decodes-wrong-values", f"{x.hex()} -> ({sig.r}, {sig.s}), DER says {rder.decode(x)}", case)
+        back = outcome(sig.serialize, check_validity=False)
+        if back[0] == "raise" or back[1] != bytes(x):
+            ctx.violation("der-parse-serialize-not-identity", f"parse({x.hex()}).serialize() = {back[1]!r}", case)
+        prev = seen.setdefault((sig.r, sig.s), bytes(x))
+        if prev != bytes(x):
+            ctx.violation("der-two-encodings-one-signature", f"{prev.hex()} and {x.hex()} both decode to ({sig.r}, {sig.s})", case)
+    if o[0] == "ok":
+        sig = o[1]
+        if not (0 < sig.r < n and 0 < sig.s < n):
+            ctx.violation("der-validated-parse-out-of-range", f"Sig.parse accepted r, s = ({sig.r}, {sig.s})", case)
+        ctx.case("der:strict-accepted", x, sample=case)
+    else:
+        ctx.case("der:strict-refused", x)
+        if not is_lib_exc(o[1]):
+            ctx.stat(f"der:refused-with-foreign-exception:{_exc_tag(o[1])}")
+    if canon:
+        r, s = rder.decode(x)
+        if 0 < r < n and 0 < s < n:
+            if on[0] != "ok":
+                ctx.violation("der-strict-refuses-canonical", f"canonical {x.hex()} refused (check_validity=False): {on[1]!r}", case)
+            if _is_x_coordinate(K1, r):
+                ctx.classes["der:canonical-valid-roundtrip"] += 1
+                if o[0] != "ok":
+                    ctx.violation("der-strict-refuses-canonical", f"canonical {x.hex()} of a valid (r, s) refused: {o[1]!r}", case)
+            elif o[0] != "ok":
+                ctx.stat("der:r-not-an-x-coordinate-refused(not judged)")
+    if ol[0] == "ok" and on[0] != "ok":
+        ctx.classes["der:lax-only"] += 1
+    ctx.classes[f"der:mut:{mut}"] += 1
+
+
+def _short(nb: int) -> bytes:
+    return bytes([nb & 0xFF])
+
+
+def _der_build(rb: bytes, sb: bytes, **ov) -> bytes:
+    inner = (ov.get("r_tag", b"\x02") + ov.get("r_len", _short(len(rb))) + rb
+             + ov.get("s_tag", b"\x02") + ov.get("s_len", _short(len(sb))) + sb + ov.get("inner_extra", b""))
+    if ov.get("drop_s"):
+        inner = ov.get("r_tag", b"\x02") + ov.get("r_len", _short(len(rb))) + rb
+    seq_len = ov["seq_len"](len(inner)) if "seq_len" in ov else _short(len(inner))
+    return ov.get("seq_tag", b"\x30") + seq_len + inner + ov.get("outer_extra", b"")
+
+
+def _der_mutations(rng, rb: bytes, sb: bytes):
+    """(name, bytes) for every structural mutation of one canonical encoding."""
+    B = _der_build
+    yield "canonical", B(rb, sb)
+    for k in (1, 2, 3):
+        yield "pad-r", B(b"\x00" * k + rb, sb)
+        yield "pad-s", B(rb, b"\x00" * k + sb)
+    if len(rb) > 1 and rb[0] == 0:
+        yield "unpad-r", B(rb[1:], sb)
+    if len(sb) > 1 and sb[0] == 0:
+        yield "unpad-s", B(rb, sb[1:])
+    yield "negative-r", B(bytes([rb[0] | 0x80]) + rb[1:], sb)
+    yield "negative-s", B(rb, bytes([sb[0] | 0x80]) + sb[1:])
+    yield "ff-pad-r", B(b"\xff" + rb, sb)
+    for lf in (lambda L: b"\x81" + _short(L), lambda L: b"\x82\x00" + _short(L), lambda L: b"\x83\x00\x00" + _short(L)):
+        yield "longform-seq", B(rb, sb, seq_len=lf)
+        yield "longform-r", B(rb, sb, r_len=lf(len(rb)))
+        yield "longform-s", B(rb, sb, s_len=lf(len(sb)))
+    yield "indefinite-seq", B(rb, sb, seq_len=lambda L: b"\x80", inner_extra=b"\x00\x00")
+    yield "indefinite-seq", B(rb, sb, seq_len=lambda L: b"\x80")
+    yield "indefinite-r", B(rb + b"\x00\x00", sb, r_len=b"\x80")
+    for lf in (lambda L: b"\xfd" + L.to_bytes(2, "little"), lambda L: b"\xfe" + L.to_bytes(4, "little"),
+               lambda L: b"\xff" + L.to_bytes(8, "little"), lambda L: b"\xfd" + L.to_bytes(2, "big")):
+        yield "compactsize-seq", B(rb, sb, seq_len=lf)
+        yield "compactsize-r", B(rb, sb, r_len=lf(len(rb)))
+        yield "compactsize-s", B(rb, sb, s_len=lf(len(sb)))
+    for t in (0x00, 0x31, 0x20, 0x10, 0xFF, 0x32, 0xB0, 0x70):
+        yield "seq-tag", B(rb, sb, seq_tag=bytes([t]))
+    for t in (0x00, 0x01, 0x03, 0x82, 0x22, 0x0A, 0xFF, 0x30):
+        yield "r-tag", B(rb, sb, r_tag=bytes([t]))
+        yield "s-tag", B(rb, sb, s_tag=bytes([t]))
+    for extra in (b"\x00", b"\x01", b"\x02\x01\x01", b"\x05\x00", b"\x00\x00", rng.randbytes(rng.randrange(1, 5))):
+        yield "trailing-inside", B(rb, sb, inner_extra=extra)
+        yield "trailing-outside", B(rb, sb, outer_extra=extra)
+        yield "trailing-inside-unaccounted", B(rb, sb, inner_extra=extra, seq_len=lambda L, e=len(extra): _short(L - e))
+    for dlt in (-2, -1, 1, 2):
+        yield "seq-length-off", B(rb, sb, seq_len=lambda L, d=dlt: _short(L + d))
+        yield "r-length-off", B(rb, sb, r_len=_short(len(rb) + dlt))
+        yield "s-length-off", B(rb, sb, s_len=_short(len(sb) + dlt))
+    yield "empty-r", B(b"", sb)
+    yield "empty-s", B(rb, b"")
+    yield "empty-both", B(b"", b"")
+    yield "one-integer", B(rb, sb, drop_s=True)
+    yield "zero-length-seq", b"\x30\x00"
+    yield "swapped", B(sb, rb)
+    full = B(rb, sb)
+    for cut in sorted({0, 1, 2, 3, 4, 4 + len(rb) - 1, 4 + len(rb), 5 + len(rb), 6 + len(rb), len(full) - 1}):
+        yield "truncated", full[:cut]
+    yield "prefixed", b"\x00" + full
+    yield "doubled", full + full
+    for _ in range(4):
+        i = rng.randrange(len(full))
+        yield "bit-flip", full[:i] + bytes([full[i] ^ (1 << rng.randrange(8))]) + full[i + 1:]
+        yield "byte-insert", full[:i] + rng.randbytes(1) + full[i:]
+        yield "byte-delete", full[:i] + full[i + 1:]
+
+
+def shard_der(ctx: Ctx) -> None:
+    from btclib.ecc.dsa import Sig
+
+    obs = _Obs(ctx)
+    rng = ctx.rng
+    K1 = rec.SECP256K1
+    n, p = K1.n, K1.p
+    xs = [K1.mul_nored(rng.randrange(1, n), K1.G)[0] % n for _ in range(12)]
+    low_x = [x for x in range(1, 400) if K1.lift_x(x) is not None][:6]
+    high = [x for x in (xs + [K1.mul_nored(k, K1.G)[0] % n for k in range(2, 30)]) if x >> 255][:4]
+    r_vals = xs + low_x + high + [1, 2, 127, 128, 255, 256, 1 << 255, (1 << 255) - 1, (1 << 255) + 1, n - 1, n - 2, n, n + 1, 0,
+                                  (1 << 256) - 1, 1 << 256, 1 << 248, (1 << 248) - 1, 1 << 263, p, p - 1]
+    s_vals = [1, 2, 127, 128, 255, 256, 32767, 32768, n // 2, n // 2 + 1, 1 << 255, (1 << 255) - 1, n - 1, n, 0, n + 1,
+              (1 << 256) - 1, 1 << 256, 1 << 264]
+    seen: dict = {}
+    total = ctx.params["n"]
+    done = 0
+    arm = True
+    try:
+        while done < total and not ctx.out_of_time():
+            if backend_available():
+                arm = not arm
+                set_backend(arm)
+            r = rng.choice(r_vals) if rng.random() < 0.8 else rng.randrange(1, n)
+            s = rng.choice(s_vals) if rng.random() < 0.6 else rng.randrange(1, n)
+            rb, sb = rder.encode_int(r)[2:], rder.encode_int(s)[2:]
+            if len(rb) > 120 or len(sb) > 120:
+                continue
+            for mut, x in _der_mutations(rng, rb, sb):
+                _der_eval(ctx, Sig, x, mut, seen)
+                done += 1
+            for _ in range(6):  # the 5% side dish
+                _der_eval(ctx, Sig, rng.randbytes(rng.randrange(0, 80)), "random-bytes", seen)
+                _der_eval(ctx, Sig, b"\x30" + _short(rng.randrange(0, 75)) + b"\x02" + rng.randbytes(rng.randrange(0, 75)), "random-tail", seen)
+                done += 2
+    finally:
+        if backend_available():
+            set_backend(True)
+    obs.finish()
+
+
+def shard_wycheproof(ctx: Ctx) -> None:
+    """The vendored Wycheproof signatures: DER strings through the strict parser, and the whole verification
+    (DER octets in, boolean out) against 'BIP 66 canonical and the SEC 1 equation holds'."""
+    from btclib.ecc import dsa
+
+    _selftest_mini(ctx)
+    obs = _Obs(ctx)
+    K1 = rec.SECP256K1
+    seen: dict = {}
+    files = (("ecdsa_secp256k1_sha256_test.json", "sha256"), ("ecdsa_secp256k1_sha256_bitcoin_test.json", "sha256"),
+             ("ecdsa_secp256k1_sha512_test.json", "sha512"))
+    i = 0
+    try:
+        for fname, hname in files:
+            hf = hf_of(hname)
+            with open(os.path.join(VEC, fname)) as f:
+                w = json.load(f)
+            for g in w["testGroups"]:
+                pk = g["publicKey"]
+                Q = (int(pk["wx"], 16), int(pk["wy"], 16))
+                for tc in g["tests"]:
+                    if ctx.out_of_time() and ctx.classes["der:wycheproof"] > 300:
+                        ctx.notes.append("wycheproof: budget reached")
+                        return
+                    i += 1
+                    if backend_available():
+                        set_backend(i % 2 == 0)
+                    sig, msg = bytes.fromhex(tc["sig"]), bytes.fromhex(tc["msg"])
+                    _der_eval(ctx, dsa.Sig, sig, "wycheproof", seen)
+                    exp = False
+                    r = s = -1
+                    if rder.is_canonical(sig):
+                        r, s = rder.decode(sig)
+                        exp = recdsa.verify(K1, Q, recdsa.challenge(hf(msg).digest(), K1.n), r, s)
+                    key = [Q, pk["uncompressed"], bytes.fromhex(pk["uncompressed"])][i % 3]
+                    case = {"file": fname, "tcId": tc["tcId"], "comment": tc["comment"], "sig": sig, "msg": msg, "Q": Q}
+                    ctx.mon("verify-vs-reference")
+                    o = outcome(dsa.verify, msg, key, sig, hf)
+                    if o[0] == "raise":
+                        ctx.violation(f"verify-raised:{_exc_tag(o[1])}", f"verify of DER octets raised {o[1]!r}", case)
+                    elif o[1] is not exp:
+                        if exp:
+                            ctx.violation("verify-rejects-valid", f"Wycheproof {fname} tcId {tc['tcId']} ({tc['comment']}): False", case)
+                        elif not rder.is_canonical(sig):
+                            ctx.violation(f"verify-accepts-noncanonical-der:{_bip66_rule(sig)}",
+                                          f"Wycheproof {fname} tcId {tc['tcId']} ({tc['comment']}): True", case)
+                        else:
+                            ctx.violation("verify-accepts-invalid:equation-fails" if 0 < r < K1.n and 0 < s < K1.n else
+                                          "verify-accepts-invalid:r-or-s-out-of-range",
+                                          f"Wycheproof {fname} tcId {tc['tcId']} ({tc['comment']}): True", case)
+                    ctx.case("der:wycheproof", (fname, tc["tcId"]), sample=case)
+    finally:
+        if backend_available():
+            set_backend(True)
+        obs.finish()
+
+
+# ------------------------------------------------------------------------ bms
+_KINDS = ["p2pkh-uncompressed", "p2pkh-compressed", "p2sh-p2wpkh", "p2wpkh"]
+
+
+def _ref_address(Q, kind: str, net: str) -> str:
+    if kind == "p2pkh-uncompressed":
+        return rbms.p2pkh(Q, net, False)
+    if kind == "p2pkh-compressed":
+        return rbms.p2pkh(Q, net, True)
+    if kind == "p2sh-p2wpkh":
+        return rbms.p2sh_p2wpkh(Q, net)
+    return rbms.p2wpkh(Q, net)
+
+
+def _ref_bms_opens(Qr, rf: int, addr: str, net: str):
+    """(strict BIP 137 verdict, Electrum-lenient verdict) for the recovered key Qr."""
+    if Qr is None or not 27 <= rf <= 42:
+        return False, False
+    kind = _KINDS[(rf - 27) // 4]
+    strict = _ref_address(Qr, kind, net) == addr
+    lenient = kind == "p2pkh-compressed" and addr in (rbms.p2sh_p2wpkh(Qr, net), rbms.p2wpkh(Qr, net))
+    return strict, lenient
+
+
+def shard_bms(ctx: Ctx) -> None:
+    from btclib.ecc import bms, dsa
+
+    _selftest_mini(ctx)
+    obs = _Obs(ctx)
+    rng = ctx.rng
+    K1 = rec.SECP256K1
+    n = K1.n
+    it = 0
+    rec_cache: dict = {}
+
+    def recovered(e, r, s, recid):
+        key = (e, r, s)
+        if key not in rec_cache:
+            rec_cache[key] = {(j, par): P for j, par, P in recdsa.recover(K1, e, r, s, 1)}
+        return rec_cache[key].get((recid >> 1, recid & 1))
+
+    try:
+        for rep in range(ctx.params["n"]):
+            for net in rbms.NETWORKS:
+                for kind in _KINDS:
+                    if ctx.out_of_time() and rep > 0:
+                        ctx.notes.append(f"bms: budget reached in repetition {rep}")
+                        return
+                    it += 1
+                    if backend_available():
+                        set_backend(it % 2 == 0)
+                    arm = "bindings" if (backend_available() and it % 2 == 0) else "python"
+                    comp = kind != "p2pkh-uncompressed"
+                    q = _key_of(_KEY_CLASSES[it % len(_KEY_CLASSES)], n, rng)
+                    Q = K1.mul_nored(q, K1.G)
+                    msg = [b"", b"hello", rng.randbytes(rng.randrange(1, 80)), rng.randbytes(rng.randrange(253, 400)),
+                           "a message ✓ ".encode() * 3][it % 5]
+                    wif = rbms.wif(q, net, comp)
+                    addr = _ref_address(Q, kind, net)
+                    d = rbms.message_hash(msg)
+                    e = recdsa.challenge(d, n)
+                    k = r69.nonce(q, n, d, hashlib.sha256)
+                    r, s, R = recdsa.sign(K1, q, e, k)
+                    recid = 2 * (R[0] // n) + (R[1] & 1)
+                    if s > n // 2:
+                        s, recid = n - s, recid ^ 1
+                    want_rf = rbms.header(kind, recid)
+                    case = {"network": net, "kind": kind, "arm": arm, "q": q, "wif": wif, "address": addr, "msg": msg}
+                    give_addr = addr if (kind not in ("p2pkh-compressed", "p2pkh-uncompressed") or it % 3) else None
+                    o = outcome(bms.sign, msg, wif, give_addr)
+                    ctx.mon("sign-vs-reference")
+                    ctx.case("bms:sign", (net, kind, q, msg), sample=case)
+                    ctx.classes[f"bms:{kind}:{net}"] += 1
+                    if o[0] == "raise" and net == "regtest" and kind == "p2wpkh" and is_lib_exc(o[1]):
+                        # a WIF carries a version byte that testnet, signet, testnet4 and regtest share: the library reads it
+                        # as testnet and cannot be told otherwise, so a bcrt1 address is refused.  Nothing was signed: not
+                        # judged here; verification is exercised with the reference's signature instead
+                        ctx.stat("bms:sign-refused:regtest-bech32-address-with-network-ambiguous-wif(not judged)")
+                        o = outcome(bms.Sig.parse, bytes([want_rf]) + r.to_bytes(32, "big") + s.to_bytes(32, "big"))
+                    if o[0] == "raise":
+                        ctx.violation(f"bms-sign-refused:{_exc_tag(o[1])}", f"bms.sign raised {o[1]!r}", case)
+                        continue
+                    sig = o[1]
+                    got = (sig.rf, sig.dsa_sig.r, sig.dsa_sig.s)
+                    if got[1:] != (r, s):
+                        ctx.violation("bms-sign-differs-from-rfc6979", f"bms.sign -> {got}, reference {(want_rf, r, s)}", {**case, "got": got})
+                        continue
+                    if sig.rf != want_rf:
+                        Qr = recovered(e, r, s, (sig.rf - 27) & 3)
+                        ctx.violation("bms-recovery-flag-wrong-key" if Qr != Q else "bms-recovery-flag-wrong-address-type",
+                                      f"recovery flag {sig.rf}, the address type and key prescribe {want_rf}", {**case, "got": got})
+                        continue
+                    if recovered(e, r, s, recid) != Q:
+                        ctx.oracle_broken("ref.ecdsa.recover", "does not give the signer's key back")
+                        continue
+                    ctx.mon("recover-vs-signer-key")
+                    # own address, in the three spellings of a signature
+                    raw = bytes([want_rf]) + r.to_bytes(32, "big") + s.to_bytes(32, "big")
+                    b64 = base64.b64encode(raw).decode()
+                    for form, sg in (("Sig", sig), ("base64", b64)):
+                        ov = outcome(bms.verify, msg, addr, sg)
+                        ctx.classes["bms:verify:own-address"] += 1
+                        if ov[0] == "raise" or ov[1] is not True:
+                            ctx.violation("bms-verify-rejects-own-signature", f"bms.verify({form}) -> {ov[1]!r}", case)
+                    rt = outcome(lambda: (sig.serialize(), sig.b64encode(), bms.Sig.parse(raw), bms.Sig.b64decode(b64)))
+                    ctx.classes["bms:roundtrip"] += 1
+                    if rt[0] == "raise" or rt[1][0] != raw or rt[1][1] != b64 or rt[1][2] != sig or rt[1][3] != sig:
+                        ctx.violation("bms-serialization-roundtrip", f"65-byte / base64 forms do not round-trip: {rt[1]!r}", case)
+                    # another key, same type
+                    q2 = q + 1 if q + 1 < n else q - 1
+                    a2 = _ref_address(K1.mul_nored(q2, K1.G), kind, net)
+                    ov = outcome(bms.verify, msg, a2, sig)
+                    ctx.classes["bms:other-key"] += 1
+                    if ov[0] == "raise" or ov[1] is not False:
+                        ctx.violation("bms-verify-accepts-other-key", f"signature of {addr} accepted for {a2}: {ov[1]!r}", case)
+                    # every other type of the same key, every header of the same (r, s)
+                    for kind2 in _KINDS:
+                        if kind2 == kind:
+                            continue
+                        a3 = _ref_address(Q, kind2, net)
+                        strict, lenient = _ref_bms_opens(Q, want_rf, a3, net)
+                        ov = outcome(bms.verify, msg, a3, sig)
+                        ctx.classes["bms:other-type"] += 1
+                        if ov[0] == "raise":
+                            ctx.violation(f"bms-verify-raised:{_exc_tag(ov[1])}", f"bms.verify raised {ov[1]!r}", {**case, "other": a3})
+                        elif lenient and not strict:
+                            ctx.stat(f"bms:electrum-lenient:{kind}->{kind2}:{ov[1]}")
+                        elif ov[1] is not strict:
+                            ctx.violation("bms-verify-accepts-other-address-type" if ov[1] else "bms-verify-rejects-own-signature",
+                                          f"signature with header {want_rf} for {kind} answered {ov[1]} on the {kind2} address", {**case, "other": a3})
+                    if it % 4 == 0:
+                        # another header on the same (r, s): answered as BIP 137 answers
+                        rf2 = rng.choice([x for x in range(27, 43) if x != want_rf])
+                        Qr = recovered(e, r, s, (rf2 - 27) & 3)
+                        strict, lenient = _ref_bms_opens(Qr, rf2, addr, net)
+                        sg2 = outcome(bms.Sig, rf2, sig.dsa_sig)
+                        if sg2[0] == "ok":
+                            ov = outcome(bms.verify, msg, addr, sg2[1])
+                            ctx.classes["bms:other-header"] += 1
+                            if ov[0] == "raise":
+                                ctx.violation(f"bms-verify-raised:{_exc_tag(ov[1])}", f"bms.verify raised {ov[1]!r}", {**case, "rf": rf2})
+                            elif lenient and not strict:
+                                ctx.stat(f"bms:electrum-lenient:header{rf2}:{ov[1]}")
+                            elif ov[1] is not strict:
+                                ctx.violation("bms-verify-wrong-on-foreign-header", f"header {rf2} on {kind} address: {ov[1]}, BIP 137 says {strict}", {**case, "rf": rf2})
+                        # another message
+                        ov = outcome(bms.verify, msg + b"!", addr, sig)
+                        e2 = recdsa.challenge(rbms.message_hash(msg + b"!"), n)
+                        strict, _ = _ref_bms_opens(recovered(e2, r, s, recid), want_rf, addr, net)
+                        if ov[0] == "raise" or ov[1] is not strict:
+                            ctx.violation("bms-verify-accepts-other-message", f"another message answered {ov[1]!r}", case)
+    finally:
+        if backend_available():
+            set_backend(True)
+        obs.finish()
+
+
+# ---------------------------------------------------------- two processes
+_CHILD = r"""
+import sys, json, hashlib
+repo = sys.argv[1]
+sys.path.insert(0, repo)
+from btclib.curves.curve import CURVES
+from btclib.ecc import dsa
+out = []
+for name, hname, q, msg, grind, low in json.load(sys.stdin):
+    hf = getattr(hashlib, hname)
+    sig = dsa.sign(bytes.fromhex(msg), int(q, 16), None, low, CURVES[name], hf, grind=grind)
+    out.append([hex(sig.r), hex(sig.s)])
+print(json.dumps(out))
+"""
+
+
+def shard_repro(ctx: Ctx) -> None:
+    import subprocess
+    import sys
+
+    from btclib.curves.curve import CURVES
+    from btclib.ecc import dsa
+
+    rng = ctx.rng
+    repo = os.environ.get("VERIF_REPO", "/repo")
+    cases = []
+    for i in range(ctx.params["n"]):
+        name = "secp256k1" if i % 2 == 0 else rng.choice(CURVE_NAMES[1:15])
+        hname = "sha256" if i % 4 < 2 else rng.choice(HASHES)
+        n = CURVES[name].n
+        cases.append([name, hname, hex(_key_of(_KEY_CLASSES[i % len(_KEY_CLASSES)], n, rng)), rng.randbytes(rng.randrange(0, 90)).hex(),
+                      bool(i & 1), bool(i & 2) or name == "secp256k1" and i % 8 == 0])
+    here = []
+    for name, hname, q, msg, grind, low in cases:
+        sig = dsa.sign(bytes.fromhex(msg), int(q, 16), None, low, CURVES[name], getattr(hashlib, hname), grind=grind)
+        here.append([hex(sig.r), hex(sig.s)])
+    for label, extra_env in (("fresh-process", {"PYTHONHASHSEED": str(rng.randrange(1, 10**6))}),
+                             ("fresh-process-python-arm", {"PYTHONHASHSEED": "random", "BTCLIB_NO_LIBSECP256K1": "1"})):
+        env = dict(os.environ, **extra_env)
+        p = subprocess.run([sys.executable, "-c", _CHILD, repo], input=json.dumps(cases), capture_output=True, text=True,
+                           env=env, timeout=300)
+        if p.returncode != 0:
+            ctx.inconclusive_(f"repro child failed: {p.stderr[-300:]}")
+            return
+        there = json.loads(p.stdout)
+        for c, a, b in zip(cases, here, there):
+            ctx.case("repro:two-processes", (label, tuple(c)), sample={"case": c, "process": label})
+            if a != b:
+                ctx.violation("sign-not-reproducible-across-processes", f"{label}: {a} here, {b} there", {"case": c})
